@@ -244,8 +244,11 @@ impl WorldB {
             public.push(addr_v4(10, 0, 0, 3, 5002));
         }
         let max_clients = cfg.get("maxcl").max(1) as usize;
+        // (epoch: the server's clock is wall-clock time since the Unix epoch, as the library's examples set it up, instead of a
+        // small number: seconds that no longer fit a 24-bit mantissa, milliseconds beyond 2^40)
+        let t0_secs = if cfg.get("epoch") == 1 { 1_700_000_000 } else { T0_SECS };
         let server = NetcodeServer::new(ServerConfig {
-            current_time: Duration::from_secs(T0_SECS),
+            current_time: Duration::from_secs(t0_secs),
             max_clients,
             protocol_id,
             public_addresses: public.clone(),
@@ -255,7 +258,12 @@ impl WorldB {
         let hostile_mask = cfg.get("hostile");
         let slots = (0..nslots)
             .map(|j| Slot {
-                addr: addr_v4(192, 168, 0, 10 + j as u8, 4000 + j as u16),
+                // (addrmix: what a dual-stack socket reports — IPv4 hosts as IPv4-mapped IPv6 addresses, others as native IPv6)
+                addr: match (cfg.get("addrmix"), j % 3) {
+                    (1, 0) => SocketAddr::new(IpAddr::V6(Ipv4Addr::new(192, 168, 0, 10 + j as u8).to_ipv6_mapped()), 4000 + j as u16),
+                    (1, 1) => SocketAddr::new(IpAddr::V6(Ipv6Addr::new(0xfd00, 0, 0, 0, 0, 0, 0x10, 10 + j as u16)), 4000 + j as u16),
+                    _ => addr_v4(192, 168, 0, 10 + j as u8, 4000 + j as u16),
+                },
                 client: None,
                 tid: 0,
                 epoch: 0,
@@ -290,7 +298,7 @@ impl WorldB {
             max_clients_ctor: max_clients,
             max_clients_cur: max_clients,
             max_ever_lowered: false,
-            sv_ms: T0_SECS * 1000,
+            sv_ms: t0_secs * 1000,
             tokens: Vec::new(),
             slots,
             ledger: Vec::new(),
@@ -555,6 +563,12 @@ pub fn gen_cfg(family: &str, rng: &mut Rng) -> Cfg {
     cfg.set("timeout", *rng.pick(&[1u64, 2, 5, 5, 15, 0xFFFF_FFFF])); // last = -1 (disabled)
     cfg.set("expire", *rng.pick(&[1u64, 2, 5, 30, 30, 300]));
     cfg.set("dead", *rng.pick(&[0u64, 0, 0, 1, 2]));
+    if rng.chance(1, 4) {
+        cfg.set("epoch", 1);
+    }
+    if rng.chance(1, 3) {
+        cfg.set("addrmix", 1);
+    }
     if cfg.get("expire") <= 5 && rng.chance(1, 3) {
         cfg.set("expmix", 1);
     }
